@@ -160,8 +160,10 @@ func (writeSettingsAck) staysWithinBuffer(max int) bool { return frameHeaderLen 
 
 // splitHeaderBlock splits headerBlock into fragments so that each fragment fits
 // in a single frame, then calls fn for each fragment. firstFrag/lastFrag are true
-// for the first/last fragment, respectively.
-func splitHeaderBlock(ctx writeContext, headerBlock []byte, fn func(ctx writeContext, frag []byte, firstFrag, lastFrag bool) error) error {
+// for the first/last fragment, respectively. firstFragOverhead is the number of
+// payload octets the first frame carries in front of its fragment (the promised
+// stream ID of a PUSH_PROMISE frame).
+func splitHeaderBlock(ctx writeContext, headerBlock []byte, firstFragOverhead int, fn func(ctx writeContext, frag []byte, firstFrag, lastFrag bool) error) error {
 	// For now we're lazy and just pick the minimum MAX_FRAME_SIZE
 	// that all peers must support (16KB). Later we could care
 	// more and send larger frames if the peer advertised it, but
@@ -173,8 +175,12 @@ func splitHeaderBlock(ctx writeContext, headerBlock []byte, fn func(ctx writeCon
 	first := true
 	for len(headerBlock) > 0 {
 		frag := headerBlock
-		if len(frag) > maxFrameSize {
-			frag = frag[:maxFrameSize]
+		max := maxFrameSize
+		if first {
+			max -= firstFragOverhead
+		}
+		if len(frag) > max {
+			frag = frag[:max]
 		}
 		headerBlock = headerBlock[len(frag):]
 		if err := fn(ctx, frag, first, len(headerBlock) == 0); err != nil {
@@ -242,7 +248,7 @@ func (w *writeResHeaders) writeFrame(ctx writeContext) error {
 		panic("unexpected empty hpack")
 	}
 
-	return splitHeaderBlock(ctx, headerBlock, w.writeHeaderBlock)
+	return splitHeaderBlock(ctx, headerBlock, 0, w.writeHeaderBlock)
 }
 
 func (w *writeResHeaders) writeHeaderBlock(ctx writeContext, frag []byte, firstFrag, lastFrag bool) error {
@@ -291,7 +297,7 @@ func (w *writePushPromise) writeFrame(ctx writeContext) error {
 		panic("unexpected empty hpack")
 	}
 
-	return splitHeaderBlock(ctx, headerBlock, w.writeHeaderBlock)
+	return splitHeaderBlock(ctx, headerBlock, 4, w.writeHeaderBlock) // 4: Promised Stream ID
 }
 
 func (w *writePushPromise) writeHeaderBlock(ctx writeContext, frag []byte, firstFrag, lastFrag bool) error {
